@@ -39,7 +39,8 @@ REPORT = []  # one dict per generated file (for --json)
 
 
 def fail(msg):
-    print("gen_tables: " + msg)
+    # ./check keeps the last 400 characters of the output as the problem text: the message goes last and fits
+    print("gen_tables: " + (msg if len(msg) <= 380 else msg[:377] + "..."))
     sys.exit(1)
 
 
@@ -606,14 +607,34 @@ def gen_occ(repo):
 
 # ------------------------------------------------------------------------------------------ theorem modules built here
 
+def enclosing_decl(rel, line):
+    """name of the theorem/example/def around line `line` of lean/<rel> (for messages)"""
+    try:
+        lines = open(os.path.join(LEAN, rel), encoding="utf8").read().splitlines()
+    except OSError:
+        return "?"
+    for k in range(min(line, len(lines)) - 1, -1, -1):
+        m = re.match(r"\s*(?:private\s+|noncomputable\s+)*(theorem|lemma|def|example)\b\s*([\w.']*)", lines[k])
+        if m:
+            return (m.group(1) + " " + m.group(2)).strip()
+    return "?"
+
+
 def verify_modules(mods):
     """`lake build` of theorem modules that no property's Thm file imports yet (runs under the caller's lake lock)"""
     def run(repo):
         p = subprocess.run(["lake", "build"] + mods, cwd=LEAN, stdout=subprocess.PIPE, stderr=subprocess.STDOUT,
                            text=True, timeout=3600)
         if p.returncode != 0:
-            errs = [l for l in p.stdout.splitlines() if "error" in l][:8]
-            fail("theorems over the generated constants no longer check (%s): %s" % (" ".join(mods), " | ".join(errs)))
+            names = []
+            for mm in re.finditer(r"error: (RbV/[\w/]+\.lean):(\d+):\d+:\s*(.*)", p.stdout):
+                d = "%s (%s:%s: %s)" % (enclosing_decl(mm.group(1), int(mm.group(2))), mm.group(1), mm.group(2),
+                                        mm.group(3)[:60])
+                if d not in names:
+                    names.append(d)
+            if not names:
+                names = [l for l in p.stdout.splitlines() if "error" in l][:6]
+            fail("theorems over the generated constants no longer check: " + " | ".join(names[:6]))
         print("gen_tables: %s checked" % " ".join(mods))
     return run
 
